@@ -404,6 +404,36 @@ def main(run):
         if not s.startswith("_hy_") or hy.mangle(s) != s or not s.isidentifier():
             run.violation(f"reserved:{g!r}", f"gensym({g!r}) -> {s!r} not reserved/mangled",
                           {"kind": "arg", "arg": g})
+    # distinctness is for any arguments: the same label given again and again, labels of any length and
+    # alphabet, sequentially and from threads (the schedules above use short labels)
+    labels = ["", "g", "x" * 40, "y" * 84, "z" * 96, "w" * 200, "-" * 90, "é" * 120, "a-b_" * 30, "!" * 50]
+    seen_syms = {}
+    for rep in range(3):
+        for g in labels:
+            s = str(U.gensym(g))
+            run.case(("repeat", g[:10], len(g), rep))
+            if s in seen_syms:
+                run.violation(f"repeat:{len(g)}:{g[:8]!r}", f"gensym with a label of {len(g)} characters ({g[:12]!r}...) returned {s[:60]!r}... "
+                              f"twice (also for the call {seen_syms[s]})", {"kind": "arg", "arg": g})
+            else:
+                run.cov["traces_validated_against_impl"] += 1
+            seen_syms[s] = (len(g), rep)
+            if not s.startswith("_hy_") or hy.mangle(s) != s or not s.isidentifier():
+                run.violation(f"reserved:{g[:10]!r}:{len(g)}", f"gensym of a {len(g)}-character label -> {s[:60]!r} not reserved/mangled",
+                              {"kind": "arg", "arg": g})
+    import threading as _th
+    got = []
+    def _w(lbl):
+        for _ in range(50):
+            got.append(str(U.gensym(lbl)))
+    ths = [_th.Thread(target=_w, args=("q" * 100,)) for _ in range(3)]
+    for t_ in ths:
+        t_.start()
+    for t_ in ths:
+        t_.join()
+    run.case(("threads-long-label",))
+    if len(set(got)) != len(got):
+        run.violation("repeat:threads", f"3 threads x 50 calls with a 100-character label returned {len(set(got))} distinct symbols", {"kind": "arg"})
     run.cov["argument_strings"] = n_args
     run.cov["argument_strings_rejected_with_ValueError"] = len(raising)
     return run.finish(
